@@ -67,6 +67,7 @@ type Unit struct {
 	knownRefs  []Term
 	rootCaller map[string]Term
 	onceDepth  int
+	assumedUsed map[string]int
 	curState   *State
 	catDone    bool
 	catTerms   []Term
